@@ -130,13 +130,22 @@ func diagnose(w OneWalk, stepIdx int, inv bool, res *tlcrun.Result, forProp stri
 		}
 	}
 	if len(exps) == 0 {
-		return evid.Div{Prop: "C03", Key: "trace-nolabel:" + cmd,
+		nprop := "C03"
+		if ev.Cmd != nil && (ev.Cmd.C == "BDAT" && (forProp == "C05" || forProp == "C06") || ev.Cmd.C == "DATA" && (forProp == "C02" || forProp == "C06")) {
+			nprop = forProp // a transfer step the specification has no counterpart for, seen by a transfer property's own check
+		}
+		return evid.Div{Prop: nprop, Key: "trace-nolabel:" + cmd,
 			Msg: fmt.Sprintf("recorded step %s has no counterpart in the specification in the state reached; transcript tail %v", cmd, tailHist(hist)), Replay: rp}
 	}
 	x := exps[0]
 	e := &Edge{Cfg: w.Cfg}
 	e.Lbl = x.Lbl
 	prop, what := classify(e, ev, x)
+	if forProp == "C05" && ev.Cmd != nil && ev.Cmd.C == "BDAT" && prop != "C05" && dataCbsDiffer(ev, x) {
+		// whatever else it is, the backend did not get the single Data call with
+		// the concatenation of the chunks that C05 promises
+		prop, what = "C05", "data-call"
+	}
 	if what == "state" && prop != "C03" && 		(ev.St.From != x.St.From || ev.St.Rcpts != x.St.Rcpts || ev.St.Helo != x.St.Helo || ev.St.Session != x.St.Session || ev.St.Bdat != x.St.Bdat) {
 		// greeting / session / envelope fields are C03's whatever the command was
 		// (only the first divergence of a trace is reported, so this one goes to
@@ -244,4 +253,18 @@ func classify(e *Edge, ev TraceEvent, x expectRec) (prop, what string) {
 		}
 		return "C03", "state"
 	}
+}
+
+// dataCbsDiffer: the Data/LMTPData callbacks of the step are not the specified ones.
+func dataCbsDiffer(ev TraceEvent, x expectRec) bool {
+	count := func(cbs []CbRec) map[string]int {
+		d := map[string]int{}
+		for _, cb := range cbs {
+			if isDataCb(cb.N) {
+				d[cb.String()]++
+			}
+		}
+		return d
+	}
+	return fmt.Sprint(count(ev.Cbs)) != fmt.Sprint(count(x.Lbl.Cbs))
 }
